@@ -100,11 +100,14 @@ class Builder:
             self.env[name] = bool(_num(self.model, "v" + hid, self.mode, False))
             return ctx.symbol(name, "boolean")
         v = _num(self.model, "v" + hid, self.mode, 0)
-        ki = self.dec.get(("know", "h" + hid), 0)
-        signs, fin = self.KNOW[ki]
+        signs = frozenset(self.dec.get(("know", "h" + hid, "sign"), "nzp"))
+        fin = bool(self.dec.get(("know", "h" + hid, "fin"), False))
+        ki = 0 if (signs == frozenset("nzp") and not fin) else 1
         s = ctx.symbol(name, self.ftype)
         like = s
         c = lambda x: ctx.constant(float(x) if self.mode in ("real", "fp64py") else self.cls(x), like)  # noqa
+        if self.variant == 2:
+            return c(v)  # a plain constant: the real inference knows everything about it
         if ki == 0:
             self.env[name] = self.conv(v)
             return s
@@ -150,6 +153,8 @@ def evaluate(e, env, mode):
         if k == "multiply":
             return a[0] * a[1]
         if k == "divide":
+            if isinstance(a[0], float) or isinstance(a[1], float):
+                return numpy.float64(a[0]) / numpy.float64(a[1])  # IEEE result (Python itself raises on a zero divisor)
             return a[0] / a[1]
         if k == "negative":
             return -a[0]
@@ -209,7 +214,7 @@ def replay(meta, model):
 
     out_info = dict(replayed=False)
     kind, typing = meta["kind"], meta.get("typing") or ()
-    for variant in (0, 1):
+    for variant in (0, 1, 2):
         b = Builder(meta, model)
         b.variant = variant
         with warnings.catch_warnings():
@@ -227,6 +232,9 @@ def replay(meta, model):
                 out_info.update(expr=str(e).replace("\n", " ")[:300], env={k: repr(v) for k, v in b.env.items()}, answer=repr(ans), value=repr(val), truth=truth)
                 if ans is not None and bool(ans) != truth:
                     out_info["replayed"] = True
+                    leafvals = [_num(model, k, b.mode) for k in model if k.startswith("v") or k.startswith("c")]
+                    special = any(isinstance(x, (float, numpy.floating)) and (numpy.isinf(x) or x == 0) for x in leafvals)
+                    out_info["witness_kind"] = "infinite-or-zero-operand" if special else "finite-nonzero-operands"
                     return out_info
                 continue
             ops = tuple(b.hole(t, str(i)) for i, t in enumerate(typing))
